@@ -39,6 +39,18 @@ CHECKS = {
         'Bounds: trees of depth 1 (quick) / 2 (thorough); formulas of <= 4 (quick) / <= 6 (thorough) tokens, so nesting <= 2: the depth 5 of the '
         'property statement is not reached.',
    technique=TECH),
+ 'C05': dict(
+   level='model_checking', design_ref='DESIGN.md §5 C05',
+   text='<Criteria<String> as Ord>::cmp, cmp_at, cmp_at_numbers / cmp_at_datetimes / cmp_at_direct, Expr::contains_numeric / contains_datetime, '
+        'Field::is_numeric_field / is_datetime_field, Function::is_numeric_function and util::parse_filesize are executed symbolically from MIR on two rows '
+        'with symbolic key values, for every column whose evaluator arm builds a number or a date, function keys, one- and two-key lists and symbolic '
+        'directions; z3 decides that the result is the lexicographic composition of numeric / chronological / string order with desc reversed. '
+        'Parser::parse_order_by runs on symbolic lexems and the comparator induced by its result is decided equal to the textbook one. '
+        'Counterexamples are replayed through the real parser and the real Criteria::cmp in a native test.',
+   note=TRUST + 'Assumed: T = String with byte-lexicographic Ord (model); key values as rendered by the evaluator: decimals < 1000, fixed-width dates (parse_datetime '
+        'on a rendered date summarised; C13), texts from an 8-entry table; column classification read from the Variant constructor in get_field_value. '
+        'Permutation / sortedness of the buffer itself is TopN (C06). Bounds: key lists <= 2 keys; ORDER BY clauses <= 3 (quick) / 4 (thorough) tokens.',
+   technique=TECH),
  'C06': dict(
    level='model_checking', design_ref='DESIGN.md §5 C06',
    text='TopN::{new,limitless,insert,values} are executed symbolically from MIR over a BTreeMap contract model: one insert from every valid pre-state '
